@@ -573,6 +573,11 @@ class Interp:
                 # an imported name, a module-level object that is not a literal, or a class of the module, none of which a
                 # sidecar models: an unknown object
                 v = Unknown(f'module:{node.id}')
+                if node.id == 'time' and node.id in imported and any(
+                        isinstance(n, ast.Import) and any(a.name == 'time' and a.asname is None for a in n.names) for n in tree.body):
+                    # the standard `time` module, bound by no sidecar: sleeping changes no program state, clock readings are arbitrary reals
+                    yield st, default_time_module()
+                    return
                 if node.id in assigned:
                     # a module-level name bound once, at import, to a non-literal expression (`X = f(b'')`): evaluate the initialiser
                     # here - taken only when it has exactly one outcome and the value is immutable (then "computed at import" and
@@ -1699,8 +1704,6 @@ class Interp:
         return None
 
     def ex_While(self, node, st):
-        if node.orelse:
-            raise Unsupported('while-else')
         sel = self.loop_selector(node)
         spec = self.loops.get(sel)
         if spec is None:
@@ -1709,8 +1712,6 @@ class Interp:
 
     def ex_For(self, node, st):
         from . import ops
-        if node.orelse:
-            raise Unsupported('for-else')
         sel = self.loop_selector(node)
         spec = self.loops.get(sel)
         for s, itv in self.ev(node.iter, st):
@@ -1729,9 +1730,16 @@ class Interp:
 
     ex_AsyncFor = ex_For
 
+    def loop_else(self, node, st):
+        # `for ... else` / `while ... else`: the else block runs when the loop ends WITHOUT break (exhaustion / false test)
+        if node.orelse:
+            yield from self.exec_block(node.orelse, st)
+        else:
+            yield st, OUT_NORMAL
+
     def unroll(self, node, st, items, i):
         if i == len(items):
-            yield st, OUT_NORMAL
+            yield from self.loop_else(node, st)
             return
         for s0, _ in self.assign_target_gen(st, node.target, items[i]):
             for s, out in self.exec_block(node.body, s0):
@@ -1830,7 +1838,7 @@ class Interp:
             if self.feasible(exit_st):
                 exit_st.ghost['$k_' + name] = SV(INT, k)
                 exit_st.ghost['$exit_' + name] = dict(exit_st.frames[exit_st.cur][0])          # the locals as the loop left them
-                yield exit_st, OUT_NORMAL
+                yield from self.loop_else(node, exit_st)
         else:
             for s, c in self.ev(node.test, exit_st):
                 if isinstance(c, Raised):
@@ -1839,7 +1847,7 @@ class Interp:
                     if not b:
                         s2.ghost['$k_' + name] = SV(INT, k)
                         s2.ghost['$exit_' + name] = dict(s2.frames[s2.cur][0])
-                        yield s2, OUT_NORMAL
+                        yield from self.loop_else(node, s2)
 
     def _inv(self, spec, ctx):
         # invariant evaluation is ghost code: its heap reads are not lock-discipline events
@@ -2016,6 +2024,19 @@ def call_name(func):
         return ast.unparse(func)
     except Exception:
         return None
+
+
+def default_time_module():
+    def sleep(interp, st, args, kwargs):
+        st.emit('sleep', seconds=args[0] if args else None)
+        yield st, None
+
+    def reading(interp, st, args, kwargs):
+        v = sym.fresh(sym.REAL, 'clock')
+        st.assume(v.z >= 0)
+        yield st, v
+
+    return Obj('time', sleep=Model('time.sleep', sleep), **{n: Model('time.' + n, reading) for n in ('time', 'monotonic', 'perf_counter')})
 
 
 DEFAULT_DROP = (
